@@ -435,6 +435,17 @@ func checkC05(c *Check) {
 			if sel, ok := h.In.(*ssa.Select); ok {
 				ok2, why := idiomSelect(j, r, sel)
 				c.Cond(ok2, "handoff-cancellable", name, pos, why, "the hand-over cannot be cancelled through the processor's context: "+why)
+				// the only alternative to handing the login over is cancellation
+				nother := 0
+				for _, st := range sel.States {
+					if st.Dir == types.SendOnly {
+						continue
+					}
+					if doneRecvOf(st.Chan) == nil {
+						nother++
+					}
+				}
+				c.Cond(nother == 0 && sel.Blocking, "handoff-only-cancellation-gives-up", name, pos, "the select waits for the hand-over or Done() and nothing else", "the hand-over can be abandoned for a reason other than cancellation (a timer, another channel, a default case): the login event is written but no login reaches the correlator")
 			} else {
 				c.Bad("handoff-cancellable", name, pos, "bare send of the login: blocks for ever when the correlator has stopped")
 			}
@@ -443,6 +454,11 @@ func checkC05(c *Check) {
 			if nl != nil {
 				miss := blockReachesInstr(nl, isReturn, reachHO)
 				c.Cond(miss == nil, "handoff-always-after-write", name, p.InstrPos(theWrite), "every path from the successful write to a return passes through a hand-over", "after a successful write the function can return without forwarding the login")
+			}
+			if h.Fn != theWrite.Parent() {
+				// the hand-over sits in a helper: the helper cannot return without it
+				skip := searchAvoiding(h.Fn, nil, isReturn, isHO)
+				c.Cond(skip == nil, "handoff-always-after-write", name+": inside helper "+h.Fn.Name(), pos, "every path through the helper passes the hand-over", "the hand-over helper can return without forwarding the login (a condition inside it skips the hand-over)")
 			}
 		}
 	}
